@@ -8,12 +8,15 @@
 EXTENDS PathDBIndex, PathDBHistTrace
 
 IdSet(q) == {q[n] : n \in 1..Len(q)}
+(* "no metadata" and "metadata with position 0" are the same index position (the candidate   *)
+(* fix of C18-F1 keeps the metadata at 0 where the code under test deletes it)               *)
+NormLast(x) == IF x = -1 THEN 0 ELSE x
 
 IObs ==
   /\ Obs
   /\ Ev.ix.on = ix'.on
   /\ ix'.on => /\ Ev.ix.inited = ix'.inited
-               /\ Ev.ix.last = ix'.last
+               /\ NormLast(Ev.ix.last) = NormLast(ix'.last)
                /\ \A k \in DOMAIN ix'.set : IdSet(Ev.ix.set[k]) = {j \in ix'.set[k] : j > hist'.tail}
 
 TIReset ==
@@ -51,7 +54,7 @@ TIHRead   == Step(/\ Ev.op = "HRead"
                                      Ev.vals[k] = IF ReadFails THEN -2 ELSE ReadVal(Ev.w, k)
                   /\ IObs)
 
-(* TODO-KNOWN-FINDING (C18-KF1, spec/state/NOTES.md): with the indexer initialised and the   *)
+(* Finding C18-F1 (known_findings.json; tolerated by checks/C18.py only via ctx.known_finding): with the indexer initialised and the   *)
 (* index metadata deleted (it is deleted when history 1 is unindexed, i.e. after a rollback  *)
 (* to the state with id 0), the real database fails to flatten the next layer (indexSingle:  *)
 (* "history indexing is out of order, last: null") where this specification indexes history  *)
@@ -75,7 +78,7 @@ TIHNode   == Step(/\ Ev.op = "HNode"
 
 TIIndexRun == Step(Ev.op = "IndexRun" /\ IndexRun(Ev.ix.last) /\ IObs)
 
-(* TODO-KNOWN-FINDING (C18-KF2, spec/state/NOTES.md): a rollback while the initial indexing  *)
+(* Finding C18-F2 (known_findings.json; tolerated by checks/C18.py only via ctx.known_finding): a rollback while the initial indexing  *)
 (* has not completed and the index ends just below one of the histories being reverted: the real  *)
 (* indexer (indexIniter.run, shorten branch) compares the index position with the already   *)
 (* shortened target, tries to unindex a history that is not indexed, and the rollback fails  *)
